@@ -4,7 +4,7 @@ import Cellml.Units.RulesLemmas
 /-! # Lemmas about the view `Cellml.Tie.UnitsView` used by the tie theorems of `Cellml.Tie.Units`
     (kept apart so that the tie file itself builds in seconds). -/
 
-namespace Cellml.Tie
+namespace Cellml.Tie.PUnits
 open Units PMap
 
 /-- the view's copy of `elemMeaning` with the name substitution as a parameter IS `Units.elemMeaning` -/
@@ -24,4 +24,4 @@ theorem isIn_known (known : List String) (name : String) :
     Py.isIn name (known ++ Cellml.Gen.cellmlUnits) = (Cellml.Gen.cellmlUnits.contains name || known.contains name) := by
   simp only [Py.isIn, List.contains_eq_mem, List.mem_append, Bool.decide_or, Bool.or_comm]
 
-end Cellml.Tie
+end Cellml.Tie.PUnits
